@@ -95,7 +95,8 @@ class BiLinearForm(_Form):
                 values_e = (values_e_pg * dX_e_pg).integrate()
 
                 # add data (a product form such as `u * v` of scalar fields keeps a trailing unit axis)
-                data[:, i, j] = np.reshape(values_e, groupElem.Ne)
+                # row = test function v_j, column = trial function u_i, so that (K u)_j = a(u, v_j)
+                data[:, j, i] = np.reshape(values_e, groupElem.Ne)
 
         return data
 
